@@ -682,7 +682,7 @@ def replay_address(a: str):
 def main():
     t, sd = tier(), seed()
     rep = Report(PROP)
-    tmo = 20000 if t == "quick" else 120000
+    tmo = 60000 if t == "quick" else 300000
     agg = Counter()
     samples = []
     solver_time = 0.0
